@@ -27,6 +27,6 @@ while k < len(lines) and lines[k].startswith("| "):
 rest = "\n".join(lines[k:])
 s = s[:i] + "\n".join(rows) + "\n" + rest
 s = re.sub(r"\*\*\d+ changes over \w+ rounds \([^)]*\): \d+ caught by the checks as they were, \d+ missed at first\.\*\*",
-           "**%d changes over fourteen rounds (14 per property; C19 has 13): %d caught by the checks as they were, %d missed at first.**" % (len(rows), caught, missed), s)
+           "**%d changes over fifteen rounds (14 or 15 per property): %d caught by the checks as they were, %d missed at first.**" % (len(rows), caught, missed), s)
 open(p, "w").write(s)
 print(len(rows), "rows;", caught, "caught as built;", missed, "missed at first")
